@@ -189,14 +189,14 @@ func VerifHarness_C33_OpsRangeDel() {
 	hMergedOpsP(3, 2, 3, true, []base.InternalKeyKind{hKSet, hKRDel}, false)
 }
 
-func VerifHarness_C33_OpsAny_Thorough() { hMergedOps(2, 2, 3, hPointAndRangeKinds, false) }
+func VerifHarness_C33_OpsAny_Deep() { hMergedOps(2, 2, 3, hPointAndRangeKinds, false) }
 
-func VerifHarness_C33_Ops3_Thorough() { hMergedOps(3, 2, 2, hPointAndRangeKinds, false) }
+func VerifHarness_C33_Ops3_Deep() { hMergedOps(3, 2, 2, hPointAndRangeKinds, false) }
 
 func VerifHarness_C33_OpsBounded_Thorough() {
 	hMergedOpsP(3, 2, 3, true, []base.InternalKeyKind{hKSet, hKRDel}, true)
 }
-func VerifHarness_C33_ThreeLevels_Thorough() { hMergedOpsP(3, 3, 3, true, hPointAndRangeKinds, false) }
+func VerifHarness_C33_ThreeLevels_Deep() { hMergedOpsP(3, 3, 3, true, hPointAndRangeKinds, false) }
 
 // The bottom level is the real levelIter over two files (point keys only there).
 func hNoRangeDelAtBottom(h []hWrite, L int) {
